@@ -334,7 +334,7 @@ def gen_case(rng, tier: str) -> dict:
     if nl and rng.random() < 0.5:
         p = rng.choice(nl)
         cuts = sorted(set(cuts + [p] + ([p - 1] if p > 1 and rng.random() < 0.5 else [])))
-    return {'version': version, 'ack': True, 'nbrs': nbrs, 'lines': lines, 'tail': tail, 'cuts': cuts, 'cuts2': gen_cuts(rng, n), 'spin': rng.choice([0, 0, 1, 3, 9])}
+    return {'version': version, 'ack': True, 'nbrs': nbrs, 'lines': lines, 'tail': tail, 'cuts': cuts, 'cuts2': gen_cuts(rng, n), 'spin': rng.choice([0, 0, 1, 3, 9]), 'stall': rng.choice([0, 0, 0, 8, 40])}
 
 
 # ---------------------------------------------------------------------------------------------
@@ -362,12 +362,16 @@ def run_real(case: dict, cuts: list[int]) -> dict:
     try:
         data = case_bytes(case)
         sched: list = []
+        if case.get('stall'):
+            sched.append(('stall', None))  # the helper is slow to read its stdin: acknowledgements queue up behind a full pipe
         # one os.read returns at most 16384 bytes: larger pieces are written (and read) in 16384 steps
         for ch in chunks_of(data, cuts):
             for i in range(0, len(ch), 16384):
                 sched.append(('chunk', ch[i : i + 16384]))
                 if case.get('spin'):
                     sched.append(('spin', case['spin']))
+        if case.get('stall'):
+            sched += [('spin', int(case['stall'])), ('unstall', None)]
         res = rig.run(sched)
         res['chunks'] = [c for k, c in sched if k == 'chunk']
         res['nbr_lines'] = rig.nbr_lines()
@@ -823,6 +827,11 @@ def eval_case(ctx: Ctx, case: dict, quirks: dict, seen: set, origin: str, pendin
             ctx.failures.append(Failure('reader-chunking', canon, {'case': case}, f'same bytes, two chunkings: commands executed {len(res["commands"])} vs {len(res2["commands"])}, helper killed {res["dead"]} vs {res2["dead"]}'))
     # --- the other clauses
     fails = oracle(case, res)
+    if not res['dead'] and res['stream'] != [w for w in res['written'] if w]:
+        # what the helper reads from its pipe is what was written for it, line by line, in that order
+        got, want = res['stream'], [w for w in res['written'] if w]
+        i = next((k for k, (a, b) in enumerate(zip(got, want)) if a != b), min(len(got), len(want)))
+        fails.append({'what': 'order', 'line': -1, 'detail': f'the helper reads {got[i:i+4]} where ExaBGP answered {want[i:i+4]} (line {i} of {len(want)}; helper stalled: {bool(case.get("stall"))})'})
     for k in unparsed_changes(res):
         fails.append({'what': 'nochange', 'line': -1, 'detail': f'command {res["commands"][k]!r}: the parser refused it, yet a RIB changed'})
     nontrivial = bool(res['commands']) and len(res['chunks']) >= 2 and any(changed(b, a) for b, a in zip(res['before'], res['after'])) and any('e' in terminal(r) for r in res['replies'])
